@@ -135,6 +135,12 @@ func c07Scenarios(tier string) []*Scenario {
 								return vs
 							}
 							normal := term.OK() || term.Code == "EOF"
+							// on a method with a single response, a successfully received response IS the
+							// success of the call (CloseAndRecv returns it with a nil error): whatever
+							// follows must then be the normal end, not the cancellation
+							if got > 0 && (shape == "Unary" || shape == "ClientStream") && !normal {
+								bad("exactly-one-legal-outcome", "cancel:response-then-"+term.Code, fmt.Sprintf("the single response was handed to the caller with a nil error, but the call then ended with %s(%s): a mixture of the two outcomes", term.Code, term.Err))
+							}
 							switch {
 							case normal:
 								// the legal "completed" outcome: everything must be there
@@ -179,6 +185,65 @@ func c07Scenarios(tier string) []*Scenario {
 					})
 				}
 			}
+		}
+	}
+	// a context that is already done when the RPC starts: the cancel falls at the very start of
+	// the frame sequence (lock granularity in stream creation and cancellation, both families)
+	for _, cfg := range []TunCfg{{}, {Reverse: true}} {
+		for _, revOrder := range []bool{false, true} {
+			cfg, revOrder := cfg, revOrder
+			b := 1
+			if thorough {
+				b = 2
+			}
+			scs = append(scs, &Scenario{
+				Name: fmt.Sprintf("c07/%s/pre-cancelled/rev=%v", cfg, revOrder), Prop: "C07", Heavy: true,
+				Desc: fmt.Sprintf("a unary and a bidi RPC are started on a %s tunnel with contexts that are already cancelled while another bidi RPC is open; the tunnel and that RPC must be unaffected; lock granularity in stream creation / cancellation, scheduler family rev=%v, <= %d deviations", cfg, revOrder, b),
+				Opt: Options{Level: "focus", Bound: b, RevOrder: revOrder, Focus: []string{"newStream", "allocateStream", "cancelStream", "finishStream", "removeStream",
+					"Send", "SendMsg", "getStream", "createStream"}},
+				Run: func(w *World) {
+					t := w.OpenTunnel(cfg)
+					if t.StartErr != nil {
+						return
+					}
+					by := StdWorkload("by", 1, "Bidi", nil, nil)
+					by.Call.Ops = []COp{{K: "new"}, {K: "send", Size: 3}, {K: "recv"}, {K: "waitfault", D: 0}, {K: "send", Size: 3}, {K: "closesend"}, {K: "recvall"}}
+					by.Handler.Ops = []HOp{{K: "recv"}, {K: "send", Size: 3}, {K: "recvall"}, {K: "send", Size: 3}, {K: "return"}}
+					ths := w.StartCallers(t, []Workload{by})
+					w.WaitUntil("by-open", func() bool {
+						for _, e := range w.Events {
+							if e.Actor == "caller:by" && e.Op == "recv" {
+								return true
+							}
+						}
+						return false
+					})
+					for i, shape := range []string{"Unary", "Bidi"} {
+						p := StdWorkload(fmt.Sprintf("p%d", i), byte(10+i), shape, []int{3}, []int{3})
+						p.Call.PreCancel = true
+						w.Scripts[p.Handler.ID] = &p.Handler
+						w.RunCall(t.Conn, &p.Call)
+					}
+					w.Log(Event{Actor: "fault", Op: "precancelled-done"})
+					w.Join(ths...)
+					r2 := StdWorkload("r2", 2, "Unary", []int{3}, []int{3})
+					w.Join(w.StartCallers(t, []Workload{r2})...)
+					t.Close()
+				},
+				Check: func(w *World, x *Exec) []Violation {
+					vs := NoHang(x, "C07")
+					if x.Hang {
+						return vs
+					}
+					// (a pre-cancelled RPC may end Canceled or - the cancellation racing a fast
+					// peer - complete normally; both are legal outcomes of the race)
+					by := StdWorkload("by", 1, "Bidi", []int{3, 3}, []int{3, 3})
+					vs = append(vs, rename(completeOK(w, "C07", by), "cancel:pre-cancelled:other-rpc-failed")...)
+					vs = append(vs, rename(completeOK(w, "C07", StdWorkload("r2", 2, "Unary", []int{3}, []int{3})), "cancel:pre-cancelled:tunnel-dead")...)
+					vs = append(vs, msgOracle(w, "C07", []string{"by", "r2"})...)
+					return append(vs, NoLeak(w, x, "C07")...)
+				},
+			})
 		}
 	}
 	return scs
